@@ -175,6 +175,13 @@ def scenarios():
     for roots in trees():
         for default in (True, False):
             yield {"roots": roots, "default_verdict": default}
+    # verdicts are judged by their truth value: None and 0 (a handler that only logs) escalate like False, any other object handles like True
+    for roots in itertools.islice(trees(), 80):
+        for default in (None, 0, "handled"):
+            yield {"roots": roots, "default_verdict": default}
+    for fa in (1, 2):
+        for default in (None, 0, "handled"):
+            yield {"periodic": [{"fail_at": fa}], "ticks": 3, "default_verdict": default}
     for fa, fb in itertools.product((None, 1, 2, 3), repeat=2):
         for default in (True, False):
             yield {"periodic": [{"fail_at": fa}, {"fail_at": fb}], "ticks": 4, "default_verdict": default}
